@@ -1,2 +1,3 @@
 import CobaldVerif.Drive.All
 import CobaldVerif.Props.C06
+import CobaldVerif.Props.C07
